@@ -29,7 +29,10 @@ StrVals  == {<<>>, <<97>>, <<66>>, <<40>>, <<97, 66>>, <<66, 97>>, <<40, 97>>, <
 StrRows  == {Row([s |-> StrV(c)]) : c \in StrVals}
 Pats     == SeqsUpTo({97, 98, 37, 95, 40}, 2)
 StrConst == {LS(c) : c \in {<<>>, <<97>>, <<66>>, <<97, 66>>}}
-StrLike  == {LikeE(neg, S, LS(p)) : neg \in BOOLEAN, p \in Pats}
+\* one inner %: the value has to hold the text in front of it and the text behind it one after the other, not overlapping
+\* ('a%a' is not matched by 'a', 'aB%B' not by 'aB')
+Pats3    == {<<97, 37, 97>>, <<97, 66, 37, 66>>, <<97, 37, 97, 97>>, <<40, 37, 40, 97>>}
+StrLike  == {LikeE(neg, S, LS(p)) : neg \in BOOLEAN, p \in Pats \cup Pats3}
 StrCmp   == {CmpE(op, S, c) : op \in CmpOps, c \in StrConst}
 StrIn    == {InE(neg, S, l) : neg \in BOOLEAN, l \in SeqsFromTo(StrConst, 1, 2)}
 StrBtw   == {Between(neg, S, lo, hi) : neg \in BOOLEAN, lo \in StrConst, hi \in StrConst}
